@@ -59,6 +59,58 @@ struct_with_invariants!{
     }
 }
 
+pub struct Duration { pub nanos: u128 }
+/// float leaves of Vegas (R14): any value is acceptable, the clamp that follows is what keeps the bounds
+#[verifier::external_body]
+fn vx_leaf_queue_estimate(smoothed_rtt: u64, min_rtt: u64, current_limit: usize) -> (r: usize) { unimplemented!() }
+struct_with_invariants!{
+    pub struct Vegas {
+        pub limit: AtomicUsize<_, (), _>,
+        pub min_limit: usize,
+        pub max_limit: usize,
+        pub min_rtt_nanos: AtomicU64<_, (), _>,
+        pub alpha: usize,
+        pub beta: usize,
+        pub smoothing: f64,
+        pub smoothed_rtt_nanos: AtomicU64<_, (), _>,
+        pub sample_count: AtomicUsize<_, (), _>,
+        pub min_samples: usize,
+    }
+    /// C13: the Vegas limit stays within [min_limit, max_limit] at every atomic step
+    pub open spec fn wf(&self) -> bool {
+        predicate { self.min_limit <= self.max_limit && self.max_limit < usize::MAX }
+        invariant on limit with (min_limit, max_limit) is (v: usize, g: ()) { min_limit <= v && v <= max_limit }
+        invariant on min_rtt_nanos is (v: u64, g: ()) { true }
+        invariant on smoothed_rtt_nanos is (v: u64, g: ()) { true }
+        invariant on sample_count is (v: usize, g: ()) { true }
+    }
+}
+pub struct Aimd { pub controller: AimdController, pub latency_threshold: Duration }
+
+impl Vegas {
+    pub fn adjust_limit(&self)
+        requires self.wf(),
+    //@body Vegas::adjust_limit file=alg
+
+    pub fn record_failure(&self)
+        requires self.wf(),
+    //@body Vegas::record_failure@ConcurrencyAlgorithm file=alg
+
+    pub fn limit(&self) -> (r: usize)
+        requires self.wf(),
+        ensures self.min_limit <= r <= self.max_limit,   // #reported_limit_within_bounds [C13]
+    //@body Vegas::limit@ConcurrencyAlgorithm file=alg
+}
+impl Aimd {
+    pub fn record_failure(&self)
+        requires self.controller.wf(),
+    //@body Aimd::record_failure@ConcurrencyAlgorithm file=alg
+    pub fn limit(&self) -> (r: usize)
+        requires self.controller.wf(),
+        ensures self.controller.config.min_limit <= r <= self.controller.config.max_limit,   // #reported_limit_within_bounds [C13]
+    //@body Aimd::limit@ConcurrencyAlgorithm file=alg
+}
+
 impl AimdController {
     pub fn new(config: AimdConfig) -> (r: Self)
         requires config.min_limit <= config.max_limit, config.max_limit <= 0x20_0000_0000_0000, f64_unit(config.decrease_factor),
